@@ -22,19 +22,19 @@ MulVerdicts(ev) ==
   \o (IF out # DesignMultiplier(QT(w), QT(x)) THEN <<"DEV_differs_from_transcribed_rule">> ELSE <<>>)
 AccVerdicts(ev) ==
   LET m == T(ev.m)  out == T(ev.out) IN
-  (IF ~PropAccumulator(ev.n, m, out) THEN <<"sum_not_representable">> ELSE <<>>)
+  (IF ~PropAccumulator(ev.n, m, out) THEN <<"sum_not_representable", "PART_" \o PartName(AccParts(ev.n, m, out))>> ELSE <<>>)
   \o (IF out # DesignAccumulator(ev.n, m, ev.bias = 1) THEN <<"DEV_differs_from_transcribed_rule">> ELSE <<>>)
 AddVerdicts(ev) ==
   LET a == T(ev.a)  b == T(ev.b)  out == T(ev.out) IN
-  (IF ~PropAdder(a, b, out) THEN <<"adder_sum_not_representable">> ELSE <<>>)
+  (IF ~PropAdder(a, b, out) THEN <<"adder_sum_not_representable", "PART_" \o PartName(AdderParts(a, b, out))>> ELSE <<>>)
   \o (IF out # DesignAdderType(a, b) THEN <<"DEV_differs_from_transcribed_rule">> ELSE <<>>)
 \* {op:"merge", kind \in {"Add","Maximum","Minimum","Concatenate"}, a, b: operand types, out, same: operands identical}
 MergeVerdicts(ev) ==
   LET a == T(ev.a)  b == T(ev.b)  out == T(ev.out) IN
   IF ev.kind = "Add"
-  THEN (IF ~PropAdder(a, b, out) THEN <<"merge_add_sum_not_representable">> ELSE <<>>)
+  THEN (IF ~PropAdder(a, b, out) THEN <<"merge_add_sum_not_representable", "PART_" \o PartName(AdderParts(a, b, out))>> ELSE <<>>)
        \o (IF out # DesignMergeAdd(a, b) THEN <<"DEV_differs_from_transcribed_rule">> ELSE <<>>)
-  ELSE (IF ~PropMergeSelect(a, b, out) THEN <<"merge_output_does_not_contain_operand">> ELSE <<>>)
+  ELSE (IF ~PropMergeSelect(a, b, out) THEN <<"merge_output_does_not_contain_operand", "PART_" \o PartName(MergeSelectParts(a, b, out))>> ELSE <<>>)
        \o (IF ev.same = 0 /\ out # DesignMergeSelect(a, b) THEN <<"DEV_differs_from_transcribed_rule">> ELSE <<>>)
 Verdicts(ev) == CASE ev.op = "mul" -> MulVerdicts(ev) [] ev.op = "acc" -> AccVerdicts(ev) [] ev.op = "add" -> AddVerdicts(ev)
                   [] ev.op = "merge" -> MergeVerdicts(ev)
